@@ -26,7 +26,7 @@ RULE = (
 )
 ASSUMPTIONS = [
     'AS_PATH/AS4_PATH pairs are built as RFC 6793 speakers build them (AS4_PATH = the true path, AS_PATH = the same with AS_TRANS plus 2-byte prepends), so the merge result does not depend on how an AS_SET is counted',
-    'AIGP is not generated (RFC 7311 makes its acceptance a per-session configuration matter)',
+    'AIGP: reported (the first AIGP TLV) on sessions configured to accept it, left out on the others (RFC 7311 3.2, 3.4)',
     'unknown attributes use codes ExaBGP does not implement; unknown optional non-transitive ones are expected to be left out; the partial bit of relayed unknown transitive attributes is not compared',
     'every UPDATE with NLRI carries the mandatory attributes for its kind of session',
     'label stacks of several labels end with the bottom-of-stack bit (RFC 3107 style, no Multiple Labels capability) and label 0 is only generated as the last label; an empty AS_PATH and an absent as-path are the same report',
@@ -263,7 +263,20 @@ def generate(rng, tier: str, index: int) -> dict:
         for _ in range(rng.choice([0, 0, 1, 2])):
             j = rng.randint(0, len(sc) - 1)
             sc.insert(j, jclone(sc[j]))
-    return {'micro_seed': rng.randint(1, 1 << 48), 'knobs': knobs(rng), 'kinds': kinds, 'scripts': scripts, 'gap': rng.choice([0.0, 0.001, 0.02, 0.15]), 'split_p': rng.choice([0.0, 0.3, 0.8])}
+    plan = {'micro_seed': rng.randint(1, 1 << 48), 'knobs': knobs(rng), 'kinds': kinds, 'scripts': scripts, 'gap': rng.choice([0.0, 0.001, 0.02, 0.15]), 'split_p': rng.choice([0.0, 0.3, 0.8])}
+    # AIGP (RFC 7311), from a side stream so that the plans generated so far keep their draws: a third of the sessions are configured to
+    # accept it, the others must leave it out of what they report; the attribute holds one AIGP TLV, or several (the first one counts),
+    # with TLVs of other types around them
+    f = rng.fork('aigp')
+    for k, sc in zip(kinds, scripts):
+        k['aigp'] = f.chance(0.35)
+        for u in sc:
+            if u.get('attrs') and f.chance(0.2):
+                tlvs = [[1, f.choice([0, 1, 100, 999, (1 << 64) - 1])] for _ in range(f.choice([1, 1, 2, 3]))]
+                for _ in range(f.choice([0, 0, 1, 2])):
+                    tlvs.insert(f.randint(0, len(tlvs)), [f.choice([2, 3, 200]), f.bytes(f.randint(0, 9)).hex()])
+                u['attrs'].insert(f.randint(0, len(u['attrs'])), ['aigp', tlvs, {'ext': f.chance(0.15), 'partial': False}])
+    return plan
 
 
 # --------------------------------------------------------------------------- encoding (reference encoders only)
@@ -308,6 +321,9 @@ def enc_attr(name: str, value, o: dict, asn4: bool) -> bytes:
     if name == 'ext':
         return A(R.A_EXT_COMMUNITY, b''.join(bytes.fromhex(v) for v in value), 0xC0)
     if name == 'aigp':
+        if isinstance(value, list):
+            v = b''.join(bytes([t]) + ((11).to_bytes(2, 'big') + int(x).to_bytes(8, 'big') if t == 1 else (3 + len(x) // 2).to_bytes(2, 'big') + bytes.fromhex(x)) for t, x in value)
+            return R.attribute(R.A_AIGP, v, extlen=ext)
         return R.attribute(R.A_AIGP, b'\x01\x00\x0b' + int(value).to_bytes(8, 'big'))
     if name == 'large':
         return A(R.A_LARGE_COMMUNITY, b''.join(a.to_bytes(4, 'big') + b.to_bytes(4, 'big') + c.to_bytes(4, 'big') for a, b, c in value), 0xC0)
@@ -526,7 +542,7 @@ def execute(plan: dict) -> dict:
         confs.append(
             {
                 'peer_ip': k['peer_ip'], 'local_ip': LOCAL, 'local_as': 65001, 'peer_as': k['peer_as'], 'router_id': LOCAL, 'hold': 180,
-                'families': fams, 'adj-rib-in': True, 'caps': {'asn4': k['asn4'], 'add-path': 'receive' if ap else 'disable'},
+                'families': fams, 'adj-rib-in': True, 'caps': {'asn4': k['asn4'], 'add-path': 'receive' if ap else 'disable', 'aigp': bool(k.get('aigp'))},
                 'addpath_families': ap or None, 'api': {'processes': ['h1'], 'receive': ['parsed', 'update']},
             }
         )  # fmt: skip
@@ -603,7 +619,7 @@ def judge(w, plan, kinds, speakers, ctxs, sent, h, violations, probes) -> None:
         for j, (msg, line) in enumerate(zip(sent[i], lines)):
             body = msg[19:]
             try:
-                want = expected_event(body, ctxs[i])
+                want = expected_event(body, ctxs[i], keep_aigp=bool(k.get('aigp')))
             except R.RefError as exc:
                 raise RuntimeError(f'generator produced an UPDATE the reference refuses: {exc} {body.hex()[:200]}') from None
             table.apply(body, ctxs[i])
@@ -635,7 +651,7 @@ def judge(w, plan, kinds, speakers, ctxs, sent, h, violations, probes) -> None:
                 got_rib[key[:5]] = {'labels': key[5], 'next_hop': str(route.nexthop), 'attrs': canon_json_attrs(attrs)}
         want_rib = {}
         for key, v in table.routes.items():
-            want_rib[key] = {'labels': tuple(v['labels']) if v['labels'] is not None else None, 'next_hop': _nh_text(v['next_hop']), 'attrs': _rib_attrs(v['attrs'])}
+            want_rib[key] = {'labels': tuple(v['labels']) if v['labels'] is not None else None, 'next_hop': _nh_text(v['next_hop']), 'attrs': _rib_attrs(v['attrs'], bool(k.get('aigp')))}
         for key in sorted(set(got_rib) | set(want_rib), key=repr):
             g, x = got_rib.get(key), want_rib.get(key)
             if g != x:
@@ -645,10 +661,11 @@ def judge(w, plan, kinds, speakers, ctxs, sent, h, violations, probes) -> None:
         probes['rib_routes'] = probes.get('rib_routes', 0) + len(want_rib)
 
 
-def _rib_attrs(ca: dict) -> dict:
+def _rib_attrs(ca: dict, keep_aigp: bool = False) -> dict:
     """PeerTable stores refbgp.canonical_attrs(); bring it to the same shape as canon_ref_attrs"""
     c = dict(ca)
-    c.pop('aigp', None)
+    if not keep_aigp:
+        c.pop('aigp', None)
     if 'as_path' in c:
         c['as_path'] = _join(c['as_path'])
         if not c['as_path']:
